@@ -142,8 +142,8 @@ public:
             p["budget_extra"] = w.range(4, 24);
             for (auto &c : cr.a) { c["bias"] = f.pick<std::string>({"checkpoint", "checkpoint", "any"}); c["tear"] = f.pick<double>({-1.0, -3.0, -8.0, -17.0, -40.0, 0.999, 0.5, f.uniform()}); }
         }
-        bool sweep = !large && (tier == "thorough" ? f.chance(0.6) : f.chance(0.04));
-        if (sweep) { p["sweep"] = true; p["sweep_tear"] = f.uniform(); p["sweep_second"] = (tier == "thorough" && f.chance(0.3)) ? f.range(4, 30) : 0; p["budget"] = std::min<int>((int)p["budget"].integer(), 20); }
+        bool sweep = !large && (tier == "thorough" ? f.chance(0.35) : f.chance(0.04));
+        if (sweep) { p["sweep"] = true; p["sweep_tear"] = f.uniform(); p["sweep_second"] = (tier == "thorough" && f.chance(0.15)) ? f.range(4, 12) : 0; p["budget"] = std::min<int>((int)p["budget"].integer(), 20); }
         Json sh = Json::object(); sh["lists"] = Json::from(std::vector<std::string>{"crashes"}); sh["ints"] = Json::from(std::vector<std::string>{"budget", "jobs", "batch", "make.depth", "make.outs", "make.dims"});
         Json mn = Json::object(); mn["make.dims"] = 1; mn["make.outs"] = 1; mn["budget"] = 1; mn["jobs"] = 1; mn["batch"] = 1; sh["min"] = mn; p["_shrink"] = sh;
         return p;
